@@ -70,7 +70,7 @@ ASSUME_COMMON = [
 ]
 
 
-def run_check(pid, tier, seed, which, oracle_mode, extra_assumptions=(), post=None):
+def run_check(pid, tier, seed, which, oracle_mode, extra_assumptions=(), post=None, known_matcher=None):
     chk = runner.Check(pid, tier, seed)
     reps = build(which)
     verify.finish_reports(reps)
@@ -87,7 +87,35 @@ def run_check(pid, tier, seed, which, oracle_mode, extra_assumptions=(), post=No
             cache["r"] = runner.native("native/method_oracle.py", {"mode": oracle_mode, "seed": seed}, timeout=1500)
         r = cache["r"]
         return r["failures"][0] if r["failures"] else None
-    return chk.finish(oracle=oracle)
+    return chk.finish(oracle=oracle, known_matcher=known_matcher)
+
+
+def d7_obligation(chk):
+    """C06/C04 scope obligation: DoLocalRefinement must not write into the search information.  It does (known finding D7):
+    `result.bestTrials[0]` IS the stored optimum item, whose point and value holder are overwritten while its z stays."""
+    import ast
+    repo = Repo()
+    ci, fn = repo.find_method("Process", "DoLocalRefinement")
+    sites = []
+    if fn is not None:
+        for n in ast.walk(fn):
+            if isinstance(n, ast.Assign):
+                for t in n.targets:
+                    src = ast.unparse(t)
+                    if "bestTrials[0]" in src and (src.endswith(".floatVariables") or src.endswith(".value") or src.endswith(".point")):
+                        sites.append("line %d: %s = ..." % (n.lineno, src))
+    chk.add_lemma("frame:DoLocalRefinement-leaves-the-search-information-unchanged", "proved" if not sites else "refuted",
+                  "effect-analysis", 0.0,
+                  clause="DoLocalRefinement writes no field of a stored search item (Solution.bestTrials[0] is the stored optimum item)",
+                  func="iOpt/method/process.py::Process.DoLocalRefinement", model=None if not sites else {"D7": True, "sites": sites})
+
+
+def d7_matcher(item, entry):
+    if entry.get("key") != "D7":
+        return False
+    if isinstance(item, dict) and str(item.get("name", "")).startswith("frame:DoLocalRefinement"):
+        return True
+    return isinstance(item, dict) and bool(item.get("D7"))
 
 
 def replay_generic(path, oracle_mode):
